@@ -247,6 +247,24 @@ pub fn run(run: Run) -> ! {
             a.digests.extend(b.digests);
         },
     );
+    // the empty merged timeline is a valid (degenerate) configuration: its metadata must be finite
+    {
+        let empty: MergedTimeline<PTimeline> = MergedTimeline::of(Vec::<PTimeline>::new());
+        let r = catch_unwind(AssertUnwindSafe(|| (empty.delay(), empty.duration(), empty.cycle_duration(), empty.repeat())));
+        match r {
+            Err(_) => acc.sink.add("panic:empty-merged-metadata", 0, || ("metadata query on MergedTimeline::of([]) panicked".into(), json!({"timeline": "MergedTimeline::of([])"}))),
+            Ok((d, du, _c, _r)) => {
+                if !d.is_finite() || !du.is_finite() {
+                    acc.sink.add("non-finite:empty-merged-metadata", 0, || (format!("MergedTimeline::of([]): delay() = {d}, duration() = {du}"), json!({"timeline": "MergedTimeline::of([])"})));
+                }
+            }
+        }
+        let mut anim = StateAnimatorBuilder::<S4, PTimeline>::new().from_state(S4::X).on(S4::X, MergedTimeline::of(Vec::<PTimeline>::new())).build();
+        if catch_unwind(AssertUnwindSafe(|| { anim.advance(1.0); anim.is_ended() })).is_err() {
+            acc.sink.add("panic:empty-merged-animator", 0, || ("animator with an empty merged timeline panicked".into(), json!({"timeline": "MergedTimeline::of([])"})));
+        }
+        acc.ops += 6;
+    }
     acc.digests.sort();
     // debug build of the same harness: digests must be identical
     let dbg = std::env::var("VCHECK_DEBUG_BIN").unwrap_or_default();
@@ -290,7 +308,7 @@ pub fn run(run: Run) -> ! {
     cov.insert("traces_validated_against_impl".into(), json!(debug_compared));
     cov.insert("evaluations".into(), json!(acc.ops));
     cov.insert("distinct_nontrivial".into(), json!(items.len()));
-    cov.insert("rule".into(), json!("cycle in {MIN_POSITIVE,1e-30,1e-3,1,1e3,1e30,2e38,f32::MAX} x delay in {0,1e-30,1,1e30} x repeat in {None,Times 0,1,2^24,2^24+1,u32::MAX-1,u32::MAX,Infinite} x reverse, restricted to configurations whose total duration is <= f32::MAX (validity bound), x 8 keyframe sets (two with extreme finite values: +-f32::MAX, +-3e38, i32::MIN..2147483520); operations: build, duration, delay, cycle_duration, repeat, start_with, update (plain and after start_with) at {0, MIN_POSITIVE, delay, every phase boundary +-0,1,2 ulp incl. the last cycles, 1e30, f32::MAX}; animator build, advance(dt) for dt in {0,2^-9,1,1e10,1e19,1e20,f32::MAX} each twice, is_ended, set_state; every operation under catch_unwind; oracle: no panic, finite values, values within the keyframe range, and identical result digests from a debug and a release build of the same harness; states = (configuration, keyframe set) cases, transitions = operations"));
+    cov.insert("rule".into(), json!("cycle in {MIN_POSITIVE,1e-30,1e-3,1,1e3,1e30,2e38,f32::MAX} x delay in {0,1e-30,1,1e30} x repeat in {None,Times 0,1,2^24,2^24+1,u32::MAX-1,u32::MAX,Infinite} x reverse, restricted to configurations whose total duration is <= f32::MAX (validity bound), x 8 keyframe sets (two with extreme finite values: +-f32::MAX, +-3e38, i32::MIN..2147483520); operations: build, duration, delay, cycle_duration, repeat, start_with, update (plain and after start_with) at {0, MIN_POSITIVE, delay, every phase boundary +-0,1,2 ulp incl. the last cycles, 1e30, f32::MAX}; the empty merged timeline (metadata finite); animator build, advance(dt) for dt in {0,2^-9,1,1e10,1e19,1e20,f32::MAX} each twice, is_ended, set_state; every operation under catch_unwind; oracle: no panic, finite values, values within the keyframe range, and identical result digests from a debug and a release build of the same harness; states = (configuration, keyframe set) cases, transitions = operations"));
     cov.insert("exhaustive".into(), json!(true));
     cov.insert("debug_release_cases_compared".into(), json!(debug_compared));
     cov.insert("samples".into(), json!([{"timing": cfgs[cfgs.len() / 2].to_json(), "times": times(&cfgs[cfgs.len() / 2]).iter().map(|t| fj(*t)).collect::<Vec<_>>(), "advances": ADVANCES.iter().map(|t| fj(*t)).collect::<Vec<_>>()}]));
